@@ -386,34 +386,61 @@ func (e *RaceEngine) closeOrder() {
 // function, and the spawning function cannot return after the go statement without
 // receiving from that channel (results are collected before it returns).
 func channelJoined(gs GoStart) bool {
-	if len(gs.Callees) != 1 || gs.Callees[0].Parent() != gs.In {
+	if len(gs.Callees) != 1 {
 		return false
 	}
 	cl := gs.Callees[0]
-	for i, fv := range cl.FreeVars {
-		if _, isChan := derefType(fv.Type()).Underlying().(*types.Chan); !isChan {
-			continue
+	// the channel as the goroutine sees it (a captured variable, or a parameter) and as the
+	// spawner holds it (the captured cell, or the value passed at the go statement)
+	type chanPair struct{ inner, cell ssa.Value }
+	var pairs []chanPair
+	if cl.Parent() == gs.In {
+		for i, fv := range cl.FreeVars {
+			if _, isChan := derefType(fv.Type()).Underlying().(*types.Chan); !isChan {
+				continue
+			}
+			var cell ssa.Value
+			Instrs(gs.In, func(in ssa.Instruction) {
+				if mc, ok := in.(*ssa.MakeClosure); ok && mc.Fn == ssa.Value(cl) && i < len(mc.Bindings) {
+					cell = mc.Bindings[i]
+				}
+			})
+			if cell != nil {
+				pairs = append(pairs, chanPair{fv, cell})
+			}
 		}
-		// sends on this captured channel on every path to return
+	}
+	if gs.Instr.Call.StaticCallee() == cl || cl.Parent() == gs.In {
+		for i, prm := range cl.Params {
+			if _, isChan := prm.Type().Underlying().(*types.Chan); !isChan || i >= len(gs.Instr.Call.Args) {
+				continue
+			}
+			arg := gs.Instr.Call.Args[i]
+			for {
+				ct, isCT := arg.(*ssa.ChangeType)
+				if !isCT {
+					break
+				}
+				arg = ct.X
+			}
+			// only a channel made by the spawner itself (nobody else can receive from it)
+			if _, isMk := arg.(*ssa.MakeChan); isMk {
+				pairs = append(pairs, chanPair{prm, arg})
+			}
+		}
+	}
+	for _, cp := range pairs {
+		fv, cell := cp.inner, cp.cell
+		// sends on this channel on every path to return
 		isSend := func(in ssa.Instruction) bool {
 			s, ok := in.(*ssa.Send)
 			if !ok {
 				return false
 			}
 			u, ok := s.Chan.(*ssa.UnOp)
-			return ok && u.X == ssa.Value(fv) || s.Chan == ssa.Value(fv)
+			return ok && u.X == fv || s.Chan == fv
 		}
 		if len(ReachAvoiding(cl, nil, isSend, isReturn)) > 0 {
-			continue
-		}
-		// the binding in the spawner
-		var cell ssa.Value
-		Instrs(gs.In, func(in ssa.Instruction) {
-			if mc, ok := in.(*ssa.MakeClosure); ok && mc.Fn == ssa.Value(cl) && i < len(mc.Bindings) {
-				cell = mc.Bindings[i]
-			}
-		})
-		if cell == nil {
 			continue
 		}
 		isRecv := func(in ssa.Instruction) bool {
